@@ -1,5 +1,6 @@
 import SeqVerif.Base.Proto
 import SeqVerif.Model.WritePath
+import SeqVerif.Model.WPPlain
 /-!
 Driver for C01.  Requests:
   `wp.run <fix 0|1> <ev;ev;...>`   ev = `B:<docs hex>:<meta hex>` | `T:<docs hex>:<meta hex>:<d|m><k>` | `R`
@@ -9,6 +10,8 @@ Driver for C01.  Requests:
   `replay <meta file hex>`
       -> `ok docsPos=<n> metaPos=<n> entries=<pos>:<ext1>:<len>,...` | `panic`
   `rd <file hex> <offset>`      (ReadDocBlockPayload) -> `ok <hex>` | `err` | `panic`
+  `index <fix 0|1> <events> <mid.rid;...> <token hex;...>`   (blocks packed without compression)
+      -> `ok blocks=<offsets> pos=<block>.<offset>|-;... fetch=<hex>|none;... search=<mid.rid,...>;...` | `panic`
 Block bytes are decoded to the model's `Blk` and must re-encode to the same bytes (else `bad-op`).
 -/
 open SV SV.Proto SV.WPath
@@ -39,8 +42,33 @@ def parseHist (s : String) : Option (List Ev) := (splitList s ";").mapM parseEv
 
 def fmtEntry (e : Entry) : String := s!"{e.pos}:{fmtHex e.blk}"
 
+def parseID (s : String) : Option DocID :=
+  match s.splitOn "." with
+  | [a, b] => do pure ((← a.toNat?), (← b.toNat?))
+  | _ => none
+
+def idLe (a b : DocID) : Bool := a.1 < b.1 || (a.1 == b.1 && a.2 ≤ b.2)
+def fmtID (i : DocID) : String := s!"{i.1}.{i.2}"
+def fmtIDs (l : List DocID) : String := fmtList fmtID (l.mergeSort idLe).eraseDups
+
 def step (line : String) : String :=
   match fields line with
+  | ["index", fx, evs, ids, toks] =>
+    match bool? fx, parseHist evs, (splitList ids ";").mapM parseID, (splitList toks ";").mapM hex? with
+    | some fx, some h, some ids, some toks =>
+      let st := run fx init h
+      if st.panicked then "panic"
+      else
+        let ix := buildIndex plainCodec st.idx
+        let pos := fmtList (fun i => match lookupPos ix.positions i with
+          | some p => s!"{p.1}.{p.2}"
+          | none => "-") ids ";"
+        let fet := fmtList (fun i => match fetch plainCodec st.docs ix i with
+          | some b => fmtHex b
+          | none => "none") ids ";"
+        let sr := fmtList (fun t => fmtIDs (search ix t)) toks ";"
+        s!"ok blocks={fmtNats ix.blocks} pos={pos} fetch={fet} search={sr}"
+    | _, _, _, _ => "bad-op"
   | ["wp.run", fx, evs] =>
     match bool? fx, parseHist evs with
     | some fx, some h =>
